@@ -189,6 +189,58 @@ def client_kwargs(cl):
     return kw
 
 
+_SESSIONS = {}
+
+
+def _fixed_ids(request_specs):
+    ids = [dec(r['id']) for r in request_specs if r['id'] is not None]
+    return lambda: iter(ids)
+
+
+def _args_of(spec):
+    p = spec['params']
+    if p['k'] == 'none':
+        return (), {}
+    v = dec(p['v'])
+    return (tuple(v), {}) if p['k'] == 'pos' else ((), v)
+
+
+def value_via_call(c, is_async):
+    """the same exchange through the public call notations: `client.call(...)` for a single call, `batch.add/notify ...;
+    batch.call()` for a batch (optionally grown in two steps on one batch object, `regrow`)"""
+    cl = c['client']
+    req = c['request']
+    specs = [req['req']] if req['kind'] == 'single' else req['reqs']
+    kw = client_kwargs(cl)
+    kw['id_gen_impl'] = _fixed_ids(specs)
+    script = _Script(c['attempts'])
+    client = (AsyncScriptClient if is_async else ScriptClient)(script, **kw)
+
+    def run(x):
+        return S.loop().run_until_complete(x) if is_async else x
+    try:
+        if req['kind'] == 'single':
+            a, k = _args_of(specs[0])
+            if specs[0]['id'] is None:
+                return {'nothing': True} if run(client.notify(specs[0]['method'], *a, **k)) is None else {'value': 'not-none'}
+            return {'value': enc(run(client.call(specs[0]['method'], *a, **k)))}
+        b = client.batch
+        first_n = (c.get('regrow') or {}).get('first_n')
+        for i, sp in enumerate(specs):
+            if first_n is not None and i == first_n:
+                # first round: the calls made so far, answered in order
+                ids = [dec(x['id']) for x in specs[:first_n] if x['id'] is not None]
+                client.script = _Script([{'k': 'text', 'text': json.dumps([{'jsonrpc': '2.0', 'id': j, 'result': 'first'} for j in ids])}])
+                run(b.call())
+                client.script = script
+            a, k = _args_of(sp)
+            (b.notify if sp['id'] is None else b.add)(sp['method'], *a, **k)
+        v = run(b.call())
+        return {'nothing': True} if v is None else {'tuple': [enc(x) for x in v]}
+    except BaseException as e:  # noqa
+        return {'raised': enc_exc(e)}
+
+
 def run_send(c, is_async):
     """one `send` / `call` through a real client; returns the observation in the driver's shape"""
     cl = c['client']
@@ -199,7 +251,15 @@ def run_send(c, is_async):
     kw = client_kwargs(cl)
     kw['tracers'] = tracers
     kw['retry_strategy'] = make_strategy(cl.get('retry'))
-    client = (AsyncScriptClient if is_async else ScriptClient)(script, **kw)
+    sess = c.get('session')
+    if sess is not None and (sess, is_async) in _SESSIONS:
+        # a later request of a session: the *same* client object (and its retry strategy) serves it
+        client = _SESSIONS[(sess, is_async)]
+        client.script = script
+    else:
+        client = (AsyncScriptClient if is_async else ScriptClient)(script, **kw)
+        if sess is not None:
+            _SESSIONS[(sess, is_async)] = client
     send_kw = {}
     if 'req_retry' in c:
         send_kw['_retry_strategy'] = make_strategy(c['req_retry'])
@@ -257,5 +317,8 @@ def run_send(c, is_async):
     if script.sent:
         wire = enc(json.loads(script.sent[0]))
     same_doc = all(json.loads(t) == json.loads(script.sent[0]) for t in script.sent)
-    return {'wire': wire, 'sends': str(len(script.sent)), 'sleeps': sleeps, 'final': final, 'value': value, 'related': related,
-            'trace': trace, 'same_doc_each_attempt': same_doc}
+    out = {'wire': wire, 'sends': str(len(script.sent)), 'sleeps': sleeps, 'final': final, 'value': value, 'related': related,
+           'trace': trace, 'same_doc_each_attempt': same_doc}
+    if c.get('tag') == 'relate':
+        out['value_call'] = value_via_call(c, is_async)
+    return out
